@@ -63,10 +63,6 @@ Definition resolve (d : disk) (p : path) : option (content * bool) :=
   | _ => None
   end.
 
-(* where os.Create(p) ends up writing: through a symbolic link if p is one *)
-Definition wtarget (d : disk) (p : path) : path :=
-  match d p with Some (Link t) => t | _ => p end.
-
 Inductive astep :=
 | MkdirAll (p : path)
 | MkTemp (p : path)                 (* MkdirTemp *)
@@ -76,8 +72,13 @@ Inductive astep :=
 | Advertise (src dst : path)        (* AdvertiseCachedFile: the os.Stat(dst); continues with Remove or Symlink *)
 | Remove (p : path)                 (* os.Remove(src), error ignored *)
 | Symlink (src dst : path)          (* os.Symlink(rel(src), dst), EEXIST tolerated *)
-| Rebuild (gz tar : path)           (* PackageData: os.Open(tar); on ENOENT decompress gz into tar IN PLACE *)
-| CreateFollow (p : path) (body : content).  (* os.Create(final name): O_TRUNC, follows a symlink; then the writes *)
+| Rebuild (gz tar tmp : path)       (* PackageData: os.Open(tar); on ENOENT decompress gz into the temporary
+                                       file tmp (CreateTemp next to tar) and publish it with Rename *)
+| Rename (src dst : path).          (* os.Rename: atomic, replaces whatever is at dst *)
+
+(* create, write chunk by chunk, close *)
+Definition write_file (p : path) (c : content) : list astep :=
+  Create p :: List.map (Append p) c ++ [Close p].
 
 Section Exec.
 Variable gunzip : content -> content.
@@ -95,17 +96,16 @@ Definition exec (d : disk) (a : astep) : disk * list astep :=
   | Remove p => (upd d p None, [])
   | Symlink src dst =>
       (match d dst with None => upd d dst (Some (Link src)) | Some _ => d end, [])
-  | Rebuild gz tar =>
+  | Rebuild gz tar tmp =>
       (d, match resolve d tar with
           | Some _ => []
           | None => match resolve d gz with
-                    | Some (z, _) => [CreateFollow tar (gunzip z)]
+                    | Some (z, _) => write_file tmp (gunzip z) ++ [Rename tmp tar]
                     | None => []           (* error: the build fails *)
                     end
           end)
-  | CreateFollow p body =>
-      let q := wtarget d p in
-      (upd d q (Some (File [] false)), List.map (Append q) body ++ [Close q])
+  | Rename src dst =>
+      (match d src with Some x => upd (upd d dst (Some x)) src None | None => d end, [])
   end.
 
 (* ---- a system of builders sharing one disk ---------------------------- *)
@@ -136,8 +136,6 @@ Definition init (bs : list (list astep)) : sys := {| dsk := empty_disk; procs :=
 End Exec.
 
 (* ---- the population protocols ------------------------------------------ *)
-Definition write_file (p : path) (c : content) : list astep :=
-  Create p :: List.map (Append p) c ++ [Close p].
 
 (* a sequence of AdvertiseCachedFile calls *)
 Definition adv_steps (l : list (path * path)) : list astep :=
@@ -169,6 +167,11 @@ Fixpoint mix (p q : path) (a b : content) : list astep :=
   | x :: a', y :: b' => Append p x :: Append q y :: mix p q a' b'
   end.
 
+(* the PackageData call that ends cachePackage and cachedPackage; its temporary
+   file is <dir>/NNN.tmp *)
+Definition open_tar (o : nat) (d : string) (dath : string) : list astep :=
+  [Rebuild (PMember d MDat dath) (PMember d MTar dath) (PTmpFile d o)].
+
 (* cachePackage: control, signature (if any), data, tar — in this order *)
 Definition pkg_advs (o : nat) (d : string) (a : apk) : list (path * path) :=
   [(PTmpMem d o MCtl, PMember d MCtl (a_ctlh a))] ++
@@ -184,11 +187,8 @@ Definition populate_package (o : nat) (d : string) (a : apk) : list astep :=
   (match a_sig a with Some s => write_file (t MSig) s | None => [] end) ++
   write_file (t MCtl) (a_ctl a) ++
   (Create (t MDat) :: Create (t MTar) :: mix (t MDat) (t MTar) (a_dat a) (a_tar a) ++
-   Close (t MTar) :: Close (t MDat) :: adv_steps (pkg_advs o d a)).
+   Close (t MTar) :: Close (t MDat) :: adv_steps (pkg_advs o d a) ++ open_tar o d (a_dath a)).
 
-(* the PackageData call that ends cachePackage and cachedPackage *)
-Definition open_tar (d : string) (dath : string) : list astep :=
-  [Rebuild (PMember d MDat dath) (PMember d MTar dath)].
 
 (* ---- builders ---------------------------------------------------------------
    One protocol instance each.  [origin n] is what the origin serves for the
@@ -206,7 +206,7 @@ Definition prog_of (origin : path -> content) (o : nat) (b : builder) : list ast
   match b with
   | BIndex dir e => populate_index o dir e (origin (PIndex dir e))
   | BPackage dir a => populate_package o dir a
-  | BReader dir dath => open_tar dir dath
+  | BReader dir dath => open_tar o dir dath
   end.
 
 (* builder number k gets temporary-name identity k *)
@@ -233,7 +233,7 @@ Definition read_package (datahash_of : content -> string) (d : disk) (dir ctlh :
       | Some (dat, _) =>
           match resolve d (PMember dir MTar dh) with
           | Some (tar, _) => Hit {| m_ctl := ctl; m_sig := sg; m_dat := dat; m_tar := tar |}
-          | None => NeedsRebuild      (* PackageData rebuilds <hash>.dat.tar in place *)
+          | None => NeedsRebuild      (* PackageData rebuilds <hash>.dat.tar (temporary file + rename) *)
           end
       end
   end.
@@ -276,7 +276,8 @@ Inductive tev :=
 | TClose (p : path)
 | TStat (p : path) (found : bool)
 | TRemove (p : path)
-| TSymlink (src dst : path) (eexist : bool).
+| TSymlink (src dst : path) (eexist : bool)
+| TRename (src dst : path).
 
 Definition path_eqb (a b : path) : bool := if path_eq_dec a b then true else false.
 
@@ -296,6 +297,10 @@ Fixpoint accepts_skel (prog : list astep) (tr : list tev) : bool :=
       path_eqb dst q && path_eqb src r && accepts_skel prog' tr'
   | Advertise src dst :: prog', TStat q false :: TSymlink s t _ :: tr' =>
       path_eqb dst q && path_eqb src s && path_eqb dst t && accepts_skel prog' tr'
+  (* PackageData: either the tar was there (no event), or temporary file + rename *)
+  | Rebuild _ tar tmp :: prog', TCreate q :: TClose q' :: TRename r t :: tr' =>
+      path_eqb tmp q && path_eqb tmp q' && path_eqb tmp r && path_eqb tar t && accepts_skel prog' tr'
+  | Rebuild _ _ _ :: prog', _ => accepts_skel prog' tr
   | _, _ => false
   end.
 
@@ -345,8 +350,11 @@ Local Infix "+s+" := String.append (at level 60, right associativity).
 Definition cache_package_call_names (advs : list (path * path)) : list string :=
   List.map (fun st => "paths.AdvertiseCachedFile(" +s+ member_field (member_of_path (fst st)) +s+ ")") advs.
 
-(* PackageData as modelled by [Rebuild]/[CreateFollow]: open the tar; else open
-   the data section, CREATE THE FINAL NAME, copy, reopen *)
+(* PackageData as modelled by [Rebuild]: open the tar; else open the data
+   section, create a TEMPORARY file, copy, rename it to the final name, reopen
+   (os.Remove calls are the error paths and are not compared) *)
 Definition package_data_call_names : list string :=
   ["os.Open(" +s+ member_field MTar +s+ ")"; "os.Open(" +s+ member_field MDat +s+ ")";
-   "os.Create(" +s+ member_field MTar +s+ ")"; "io.CopyBuffer(_)"; "os.Open(" +s+ member_field MTar +s+ ")"].
+   "os.CreateTemp(_)"; "io.CopyBuffer(_)"; "os.Rename(" +s+ member_field MTar +s+ ")";
+   "os.Open(" +s+ member_field MTar +s+ ")"].
+Definition not_remove (c : string) : bool := negb (String.prefix "os.Remove(" c).
